@@ -47,7 +47,8 @@ class SelDevice:
     a record is appended to the log (cancelling the reservation) just before that request.
     script {request index: bytes | Exception} overrides single replies (non-conforming)."""
 
-    def __init__(self, log, limit=0xff, resv=0x10, valid=False, plan=(), script=None, max_requests=MAXREQ):
+    def __init__(self, log, limit=0xff, resv=0x10, valid=False, plan=(), script=None, max_requests=MAXREQ,
+                 range_first=False):
         self.log = [bytes(r) for r in log]
         self.limit, self.resv, self.valid = limit, resv, valid
         self.plan = list(plan)
@@ -55,6 +56,8 @@ class SelDevice:
         self.script = script or {}
         self.n = 0
         self.max_requests = max_requests
+        # variant: offset+length > 16 is refused with 0xC9 before the size limit is looked at (as legal)
+        self.range_first = range_first
 
     def lookup(self, rid):
         if not self.log:
@@ -118,6 +121,8 @@ class SelDevice:
                 if off >= 16:
                     return b'\xc9'
                 return hdr + rc[off:16]
+            if self.range_first and off + ln > 16:
+                return b'\xc9'
             if self.limit != 0xff and ln > self.limit:
                 return b'\xca'
             if off + ln > 16:
@@ -180,7 +185,7 @@ def check_entry(e, r):
 def _dev_in(inp):
     return SelDevice([bytes.fromhex(x) for x in inp['log']], inp['limit'],
                      plan=[None if p is None else bytes.fromhex(p) for p in inp.get('plan', [])],
-                     max_requests=40 * len(inp['log']) + 2000)
+                     max_requests=40 * len(inp['log']) + 2000, range_first=inp.get('range_first', False))
 
 
 def oracle_entries(inp):
@@ -224,12 +229,18 @@ def oracle_gac(inp):
         return 'last request is not a successful Delete SEL Entry'
     last_res = max(i for i, x in enumerate(ex) if x.cmd == CMD_RESERVE)
     R = ex[last_res].reply[1] | ex[last_res].reply[2] << 8
+    read = b''
     for x in ex[last_res + 1:]:
         r = x.data[0] | x.data[1] << 8
         i = x.data[2] | x.data[3] << 8
         if x.cmd not in (CMD_GET, CMD_DELETE) or r != R or i != rid:
             return ('request cmd=%02x reservation=%04x record=%04x after the last Reserve (-> %04x): '
                     'read and delete do not share the reservation' % (x.cmd, r, i, R))
+        if x.cmd == CMD_GET and x.reply[:1] == b'\x00':
+            read += x.reply[3:]
+    if read != target:
+        return ('the reads under the reservation of the delete (%04x) produced %d bytes, not the returned entry: '
+                'the entry was read under another reservation' % (R, len(read)))
     # every round that was cancelled was restarted from Reserve
     for i, x in enumerate(ex[:-1]):
         if x.reply[:1] == b'\xc5' and ex[i + 1].cmd != CMD_RESERVE:
@@ -368,6 +379,16 @@ def run(ctx):
                     {'kind': 'entries', 'n': n, 'limit': limit, 'requests': len(ex)})
             D.add(('entries', n, limit, tuple(log)), True, 'entries n=%s limit=%s' % (
                 '0' if n == 0 else '1-5' if n < 6 else '6+', 'whole' if limit == 0xff else 'partial'))
+    # device variant that checks offset+length <= 16 before the size limit (pins `16 - req.offset`)
+    for limit in range(1, 17):
+        log = mk_log(rng, 2)
+        inp = {'log': [r.hex() for r in log], 'limit': limit, 'range_first': True}
+        oracle('entries', inp, 'get_sel_entries:content-order:range-checked-first')
+        dev = SelDevice(log, limit, range_first=True)
+        out, ex = _run(dev, lambda ipmi: ipmi.get_sel_entries())
+        add('chk_entries %s %s' % (c_ex(ex), c_res(out, lambda v: C.c_list([c_entry(e) for e in v]))),
+            {'kind': 'entries-range-first', 'limit': limit})
+        D.add(('entries-rf', limit, tuple(log)), True, 'entries range-checked-first device')
     # special ids (first/last/maximal), single get_sel_entry with 0 / 0xFFFF / by id
     for limit in (0xff, 16, 7, 1):
         log = mk_log(rng, 4, ids=[0xfffe, 1, 0x0100, 0x00ff])
